@@ -16,6 +16,24 @@ Extracted (fail closed on anything else):
   * same file: in which branch(es) `self._configure_weights(weights=weights, weights_from_file=weights_from_file)` is
     called, the `shape=` of the `np.full(...)` that expands a scalar weight in `fitness`, and whether target data and
     weights are restricted through `_target_indexers` (time component under 'readout_time') -> Model.Fitness.wconf.
+
+Every function is NORMALISED before it is read (translator/c11_norm.py; general rewrites, never a list of known texts), so
+that behaviour-preserving refactorings translate to the same table:
+  * calls of private helpers of the same class / module are inlined (statement calls with guard clauses lowered to
+    if/else; single-`return` helpers also inside conditions) — except the landmarks the extractors key on
+    (`_bounds`, `_length`, `_check_out_fit_ranges`; `_calculate_fitness`, `_get_simulated_data`, `_configure_weights`,
+    `_set_bound`, `_target_indexers`);
+  * single-assignment local aliases of attribute paths are substituted when nothing on the path is stored at or after
+    the alias (nor by a method the function calls); named intermediate results are followed (`_deref`);
+  * `if not c: A else: B` == `if c: B else: A`; early `return` == nested if/else; `x = a if c else b` == if/else;
+    `match` on literals == if/elif; a manual counter == `enumerate`; module-level literal constants are resolved;
+    docstrings, comments, annotations, logging statements, messages and local names are not read;
+  * the guard functions are read by a flow-sensitive walk (`_GuardWalk`): nests of `if` / `elif` / `else`, `and` / `or` /
+    `not` / chained comparisons (De Morgan over integer comparisons), local names for bounds and lengths; every row is put
+    in ONE canonical form (`_canon`: `a > b` == `not a <= b` == `b < a`; `!=` / `==` symmetric) and rows that can only
+    raise their ValueError are put in one fixed order (`_canon_order`: they commute);
+  * arguments may be positional or by keyword.
+Everything else still fails closed.
 """
 from __future__ import annotations
 
